@@ -1,5 +1,4 @@
-CONSTANTS Hosts <- H3  Weights <- WAll  StratSet <- SOthers  WtSet <- BoolBoth  RefreshLists <- Lists2  Codes <- C6
-CONSTANT CycleOf <- MCCycleOf
+CONSTANTS Hosts <- H2  Weights <- WAll  StratSet <- SRR  WtSet <- BoolBoth  RefreshLists <- Lists1x  Codes <- C1
 SPECIFICATION Spec
 INVARIANTS TypeOK SelectsMember ErrorIffNoneEligible NoneEligibleMeans Rotation WeightedCycle CycleCoversAll
 CHECK_DEADLOCK FALSE
